@@ -14,6 +14,7 @@ import (
 	"github.com/tetratelabs/wazero/api"
 	"github.com/tetratelabs/wazero/experimental"
 	"github.com/tetratelabs/wazero/verifharness/common"
+	"github.com/tetratelabs/wazero/verifharness/guard"
 	"github.com/tetratelabs/wazero/verifharness/ug"
 )
 
@@ -55,9 +56,9 @@ func shapeOf(i string) ug.Shape {
 	case "A":
 		return ug.Shape{Mem: "own", MemLim: ug.Limits{Min: 1, Max: 2}, Tab: "own", TabLim: ug.Limits{Min: 4, Max: -1}, G: "own", H: "own", Inc: "own", ID: 1}
 	case "B":
-		return ug.Shape{Tab: "imp", TabLim: ug.Limits{Min: 4, Max: -1}, Priv: true, ID: 2}
+		return ug.Shape{Mem: "imp", MemLim: ug.Limits{Min: 1, Max: 2}, Tab: "imp", TabLim: ug.Limits{Min: 4, Max: -1}, Priv: true, ID: 2}
 	case "C":
-		return ug.Shape{Tab: "imp", TabLim: ug.Limits{Min: 4, Max: -1}, Priv: true, ID: 3}
+		return ug.Shape{Mem: "imp", MemLim: ug.Limits{Min: 1, Max: 2}, Tab: "imp", TabLim: ug.Limits{Min: 4, Max: -1}, Priv: true, ID: 3}
 	}
 	return ug.Shape{Priv: true, ID: 4}
 }
@@ -76,11 +77,12 @@ func (nopL) After(context.Context, api.Module, api.FunctionDefinition, []uint64)
 func (nopL) Abort(context.Context, api.Module, api.FunctionDefinition, error)    {}
 
 type world struct {
-	ctx   context.Context
-	cache wazero.CompilationCache
-	rt    wazero.Runtime
-	mods  map[string]api.Module
-	cms   map[string]wazero.CompiledModule
+	ctx         context.Context
+	cache       wazero.CompilationCache
+	ownerClosed bool // A, the owner of the memory, was closed (in this world or its twin's history)
+	rt          wazero.Runtime
+	mods        map[string]api.Module
+	cms         map[string]wazero.CompiledModule
 }
 
 func newWorld(engine string, listeners bool) (*world, error) {
@@ -92,6 +94,8 @@ func newWorld(engine string, listeners bool) (*world, error) {
 	if engine == "compiler" {
 		cfg = wazero.NewRuntimeConfigCompiler()
 	}
+	// A's memory (imported by B and C) comes from an allocator whose Free unmaps it: a release under a live owner faults
+	ctx = experimental.WithMemoryAllocator(ctx, guard.New())
 	cache := wazero.NewCompilationCache()
 	w := &world{ctx: ctx, cache: cache, rt: wazero.NewRuntimeWithConfig(ctx, cfg.WithCompilationCache(cache)), mods: map[string]api.Module{}, cms: map[string]wazero.CompiledModule{}}
 	return w, w.inst("A")
@@ -195,6 +199,9 @@ func runOne(id int, raw json.RawMessage) common.Result {
 			}
 			moreRefs(w, a.J)
 		case "close":
+			if a.I == "A" {
+				w.ownerClosed = true
+			}
 			if destructive {
 				_ = w.mods[a.I].Close(w.ctx)
 			}
@@ -219,6 +226,13 @@ func runOne(id int, raw json.RawMessage) common.Result {
 			fn := "tcall"
 			if a.T == "priv" {
 				fn = "pcall"
+			}
+			// the caller also reads the memory it sees (A's, own or imported): it stays A's as long as A lives
+			// (not after A itself was closed: a custom allocator's Free runs when the memory's OWNER closes - the experimental API's contract)
+			if f := w.mods[a.I].ExportedFunction("ld"); f != nil && !w.ownerClosed {
+				if _, err := f.Call(w.ctx, 0); err != nil {
+					return 0, "error:" + err.Error()
+				}
 			}
 			out, err := w.mods[a.I].ExportedFunction(fn).Call(w.ctx, uint64(a.S))
 			if err != nil {
